@@ -71,6 +71,12 @@ def gen_cases(rng, tier):
     cases += [{"expr": "x + x**2/a", "var": "x", "deg": 2, "powers": [1, 2]}, {"expr": "a*x + 7 + 3*x**4/(a*b)", "var": "x", "deg": 4, "powers": [0, 1, 4]},
               {"expr": "x**3 + x/a", "var": "x", "deg": 3, "powers": [1, 3]}, {"expr": "(x**2 + x)/(a + b)", "var": "x", "deg": 2, "powers": [1, 2]},
               {"expr": "b/a", "var": "x", "deg": 0, "powers": [0]}, {"expr": "x**2*a**(-2) + x/b", "var": "x", "deg": 2, "powers": [1, 2]}]
+    # expressions with free symbols that are the ZERO polynomial once expanded (every power of x and the constant part cancel):
+    # a constant in x all the same, O(1)
+    cases += [{"expr": "a*(x + 1) - a*x - a", "var": "x", "deg": 0, "powers": [0, 1]},
+              {"expr": "(x + a)**2 - x**2 - 2*a*x - a**2", "var": "x", "deg": 0, "powers": [0, 1, 2]},
+              {"expr": "(a + b)*x - a*x - b*x", "var": "x", "deg": 0, "powers": [0, 1]},
+              {"expr": "x*(x + 1) - x**2 - x + a - a", "var": "x", "deg": 0, "powers": [0, 1, 2]}]
     for c in ("5", "a", "a*b + 2", "7/2"):              # constants in x
         cases.append({"expr": c, "var": "x", "deg": 0, "powers": [0]})
     return cases
